@@ -48,7 +48,7 @@ func (glyph *SimpleGlyph) Decode() (*GlyphInfo, error) {
 	buf := glyph.Encoded
 
 	numContours := int(glyph.NumContours)
-	if len(buf) < 2*numContours+2 {
+	if numContours < 0 || len(buf) < 2*numContours+2 {
 		return nil, errInvalidGlyphData
 	}
 	endPtsOfContours := make([]uint16, numContours)
@@ -56,7 +56,10 @@ func (glyph *SimpleGlyph) Decode() (*GlyphInfo, error) {
 		endPtsOfContours[i] = uint16(buf[2*i])<<8 | uint16(buf[2*i+1])
 	}
 	buf = buf[2*numContours:]
-	numPoints := int(endPtsOfContours[numContours-1]) + 1
+	numPoints := 0
+	if numContours > 0 {
+		numPoints = int(endPtsOfContours[numContours-1]) + 1
+	}
 
 	instructionLength := int(buf[0])<<8 | int(buf[1])
 	if len(buf) < 2+instructionLength {
@@ -149,6 +152,9 @@ func (glyph *SimpleGlyph) Decode() (*GlyphInfo, error) {
 	start := 0
 	for i := 0; i < numContours; i++ {
 		end := int(endPtsOfContours[i]) + 1
+		if end < start || end > numPoints {
+			return nil, errInvalidGlyphData
+		}
 		pp := make([]Point, end-start)
 		for j := start; j < end; j++ {
 			pp[j-start] = Point{xx[j], yy[j], ff[j]&flagOnCurve != 0}
